@@ -221,6 +221,16 @@ def _jsonable(x):
     return repr(x)
 
 
+def units_of(mod, tier):
+    """mod.units() or mod.units(tier) when the property offers deeper unrollings for the thorough tier"""
+    import inspect
+    try:
+        takes = len(inspect.signature(mod.units).parameters) >= 1
+    except (TypeError, ValueError):
+        takes = False
+    return mod.units(tier) if takes else mod.units()
+
+
 def run_unit(args):
     (modname, unit_name, tier, known_ids) = args
     import importlib
@@ -228,7 +238,7 @@ def run_unit(args):
     res = {'unit': unit_name, 'obligations': [], 'error': None}
     try:
         mod = importlib.import_module(modname)
-        units = dict(mod.units())
+        units = dict(units_of(mod, tier))
         fn = units[unit_name]
         models = mod.make_models_for(unit_name) if hasattr(mod, 'make_models_for') else mod.make_models()
         ctx = Ctx(unit_name, models, tier)
@@ -266,7 +276,7 @@ def run_unit(args):
 def run_units(modname, tier='quick', jobs=None, only=None, known_ids=()):
     import importlib
     mod = importlib.import_module(modname)
-    names = [n for n, _ in mod.units()]
+    names = [n for n, _ in units_of(mod, tier)]
     if only:
         names = [n for n in names if any(o in n for o in only)]
     jobs = jobs or min(16, os.cpu_count() or 4)
